@@ -595,7 +595,10 @@ class Edit(Text):
         >>> c.cursor
         (5, 0)
         """
-        self._shift_view_to_cursor = bool(focus)
+        if self._shift_view_to_cursor != bool(focus):
+            # The inherited Text rendering is cached without regard to focus: drop it when the view shift changes
+            self._shift_view_to_cursor = bool(focus)
+            self._invalidate()
 
         canv: TextCanvas | CompositeCanvas = super().render(size, focus)
         if focus:
@@ -644,7 +647,9 @@ class Edit(Text):
         """
         (maxcol,) = size
 
-        self._shift_view_to_cursor = True
+        if not self._shift_view_to_cursor:
+            self._shift_view_to_cursor = True
+            self._invalidate()
         return self.position_coords(maxcol, self.edit_pos)
 
     def position_coords(self, maxcol: int, pos: int) -> tuple[int, int]:
